@@ -484,8 +484,7 @@ class HyperbolicDrawing(Drawing):
             ordered_endpts[1, 0] > self.right_infinity):
 
             ordered_endpts[1, 1] = self.up_infinity
-
-        ordered_endpts[1, 0] = ordered_endpts[0, 0]
+            ordered_endpts[1, 0] = ordered_endpts[0, 0]
 
         return ordered_endpts
 
